@@ -14,9 +14,11 @@ DRIVERS = ["driver_squeeth"]
 RULE = ("rejection-directed: for every vault operation × every cause the model knows (unsafe vault, dust vault, unknown vault, vault already has "
         "an LP, LP already lent / unknown / empty, wrong LP, insufficient WETH / oSQTH, token missing from the wallet, safe vault, closed pool, "
         "dust vault left) a state in which exactly that precondition fails is built from random prefixes of accepted operations and from the "
-        "exact boundary stream; bucket = (operation, model rejection cause, argument class, path kind)")
+        "exact boundary stream; plus every amount slot of open_deposit_mint(_by_collat_rate) / deposit / burn_and_withdraw fed with NaN, sNaN, +-Infinity, 1E+-400, -0 "
+        "and float nan/inf (a raising call must leave the state intact, no number of the state may become non-finite); "
+        "bucket = (operation, model rejection cause, argument class, path kind)")
 TRUSTED = ["the TWAP geometric mean is an oracle value captured from the real calc_twap_price"]
-ASSUMPTIONS = ["pool orientation token0 = WETH = quote; Broker.allow_negative_balance = False",
+ASSUMPTIONS = ["the model knows the pool orientation token0 = WETH = quote (pools with token0 = oSQTH, 1 world in 6, are judged by the snapshot oracle only); Broker.allow_negative_balance = False",
                "`has_update` is excluded by the property; the deep snapshot covers Broker assets, SqueethMarket.vault/_max_vault_id, "
                "UniLpMarket positions and the recorded actions"]
 
@@ -154,9 +156,12 @@ def run(ctx: Ctx):
         rejection_directed(ctx, runner)
     boundary(ctx, runner)
     runner.finish()
+    L.special_stream(ctx, ctx.scale(150, 3000), "squeeth.", reject_intact=True)
 
 
 def replay(ctx: Ctx, case) -> bool:
+    if case.get("special"):
+        return L.special_replay(case, "squeeth.", reject_intact=True)
     world = L.World(G.parse_spec(case["spec"]), G.parse_env(case["env"]))
     o = L.observe(world, G.parse_op(case["op"]), "replay")
     sub = Ctx(ctx.prop, ctx.tier, ctx.seed, False)
